@@ -8,7 +8,7 @@ EXPLANATION = ('Structural necessary conditions of keep-alive: the next-ping tim
                're-armed when a PINGREQ is queued, extended only by max(next, write time + K) on successful completion, and cleared at close/reset; '
                'a PINGREQ is queued at the front only when none is outstanding and the ping time has come; the ping deadline is '
                'min(configured timeout, K/2) with the halving done on a Duration (precision-loss lint: no integer division may flow into '
-               'Duration::from_secs); PINGRESP clears the deadline and is an error when none is outstanding; the deadline comparison fails the connection. Added in round 2: the PINGRESP deadline is part of the reported next service time on every path, and the keep-alive service runs first in every Connected service call.')
+               'Duration::from_secs); PINGRESP clears the deadline and is an error when none is outstanding; the deadline comparison fails the connection. Added in round 2: the PINGRESP deadline is part of the reported next service time on every path, and the keep-alive service runs first in every Connected service call. Added after the mutation sweeps: the ping-timeout setter stores its argument.')
 ASSUMPTIONS = ['not decided: the timing inequalities for all K, delays and interleavings (only the sites that arm, compare and clear the timers)']
 P = 'src/protocol.rs'
 PS = 'protocol::ProtocolState'
@@ -155,3 +155,10 @@ def run(ctx):
     _ns = _sh.builder_setters(ctx, lambda b, m: b == 'MqttClientOptionsBuilder' and m == 'with_ping_timeout', 'R-C14-2', 'the configured ping timeout is the one in force')
     if ctx.config == 'all':
         ctx.floor(_ns, 1, 'builder setters this property depends on')
+    # ---- added after seed C14-4b: K is what was negotiated: the CONNECT carries the configured keep alive (0 when unset) and the
+    # negotiated value is the CONNACK's, else that same CONNECT value (shared with C07)
+    from . import shared as _sh3
+    _n3 = _sh3.import_obligations(ctx, 'C07', lambda o: o['key'].endswith(('ns|server_keep_alive', 'pkt-field|keep_alive_interval_seconds', 'opt-used|keep_alive_interval_seconds', 'setter|ConnectOptionsBuilder|with_keep_alive_interval_seconds')),
+                                  'R-C14-1', 'client and server must agree on K: what the CONNECT announces is what the client assumes when the server does not override it')
+    if ctx.config == 'all':
+        ctx.floor(_n3, 4, 'keep-alive negotiation obligations shared with C07')
